@@ -1273,6 +1273,9 @@ func (m *c20Iop) copyScenarios(n int) {
 		for _, fm := range c20Forms {
 			m.reset()
 			k := 1 + (round+fm[1]/8)%3
+			if n <= 4 && fm[0] == c20Forms[0][0] && fm[1] == c20Forms[0][1] {
+				k = 7 + round%2 // many columns: the support of column j is shifted by the j-th power of the coset generator
+			}
 			var ents []int
 			for j := 0; j < k; j++ {
 				inF := c20Forms[m.rng.Intn(4)]
